@@ -320,6 +320,21 @@ theorem typed_subselection (cs : CS) (vs : List (List Int)) (key : GetKey) :
       (selectRows (vs.map centerOf) key).map (List.map (coordWith am cs)) :=
   ⟨getItem_ctr_centres vs key, ⟨rfl, rfl, rfl⟩, fun am => selectRows_map (coordWith am cs) (vs.map centerOf) key⟩
 
+/-- DTYPE-AGNOSTIC STATEMENT: the model computes over ℚ, into which every numeric dtype numpy offers (uint8…uint64, int8…int64,
+float32, float64, Python ints) embeds; so `coordinate` of an UNSIGNED index array is `coordinate` of the same numbers read as
+signed integers — in particular the negation on reversed axes can never wrap around. All theorems of this file are therefore
+statements about the VALUES of the indices, whatever array dtype carries them; the check ties every dtype to this value
+semantics (oracle clause `dtype`: raw ndarrays of every integer/float dtype, tuples, the unsigned shape array). -/
+theorem coordinate_dtype_agnostic (cs : CS) (v : List Nat) :
+    cs.coordinate (ratsOfNats v) = cs.coordinate (ratsOfInts (v.map fun n => (n : Int))) ∧
+    cs.coordinateVector (ratsOfNats v) = cs.coordinateVector (ratsOfInts (v.map fun n => (n : Int))) := by
+  have e : ratsOfNats v = ratsOfInts (v.map fun n => (n : Int)) := by
+    unfold ratsOfNats ratsOfInts
+    induction v with
+    | nil => rfl
+    | cons n v ih => simp only [List.map_cons, ih]; simp
+  rw [e]; exact ⟨rfl, rfl⟩
+
 /-! non-vacuity: a 3-D 3×1×5 system with non-default origin; voxel (−2, 0, 7) lies outside. -/
 def exCS : CS := ⟨.d3, [3, 1, 5], [3 / 2, 1 / 4, 10], [1000000, -7 / 3, 1 / 8]⟩
 
